@@ -380,6 +380,7 @@ func c07PosInvariant(w *World, r *Report) {
 		perFn[funcKey(s.f)+"."+s.fv.Name()]++
 		c := fmt.Sprintf("%s: write #%d to lexer.%s", funcKey(s.f), perFn[funcKey(s.f)+"."+s.fv.Name()], s.fv.Name())
 		st := s.st
+		cname := c
 		switch s.fv {
 		case li.fIn:
 			// only the constructor's composite literal
@@ -397,6 +398,13 @@ func c07PosInvariant(w *World, r *Report) {
 			b := li.ub(v, st.Block(), 0)
 			r.Check(b.ok && b.a == 1 && b.k <= 0, "R07.7", c, st.Pos(), "width = size of the rune decoded at input[pos:]", "width is not the size of the rune just decoded ("+b.why+")")
 		case li.fPos:
+			// pos = len(input): exactly the end of the text
+			if c, ok := stripConv(st.Val).(*ssa.Call); ok {
+				if b, ok := c.Call.Value.(*ssa.Builtin); ok && b.Name() == "len" && li.isLoadOf(c.Call.Args[0], li.fIn) {
+					r.OK("R07.7", cname, st.Pos(), "pos = len(input) (the end of the text)")
+					continue
+				}
+			}
 			bo, ok := st.Val.(*ssa.BinOp)
 			if !ok || !li.isLoadOf(bo.X, li.fPos) || (bo.Op != token.ADD && bo.Op != token.SUB) {
 				r.Fail("R07.7", c, st.Pos(), "pos is assigned `"+st.Val.String()+"`, not advanced or retreated relative to itself: pos <= len(input) cannot be shown")
